@@ -85,6 +85,12 @@ def run(ctx):
                     for c, z, o, d in conds if z)
         upper = any(c[0] == "bin" and c[1] == "Ge" and "len(" in expr_str(c[3]) and same(lin(c[2]), 0, [("address", 1), (".orig", -1)]) and gs.dominates(z[0], b)
                     for c, z, o, d in conds if z)
+        # equivalent idioms: `address.checked_sub(origin)?` is the lower guard, and a `get()` whose Option is handed on (never unwrapped)
+        # is its own upper guard
+        idx_txt = expr_str(gs.expr(t["args"][1], 14), 600)
+        lower = lower or ("checked_sub(" in idx_txt and "branch(" in idx_txt)
+        unwraps = [c2 for b2, t2, c2 in gs.calls() if c2 and re.search(r"(Option|Result)::<[^>]*>::(unwrap|expect)$", c2)]
+        upper = upper or ((callee_of(t) or "").endswith("[T]>::get") and not unwraps)
         for nm, okk in (("address >= origin", lower), ("address - origin < len", upper)):
             ctx.oblig(okk, {"lookup guard": nm}, "dominating comparison")
             if not okk:
@@ -103,7 +109,9 @@ def run(ctx):
                 if c[0] == "bin" and c[1] in ("Eq", "Ne"):
                     for side, other in ((c[2], c[3]), (c[3], c[2])):
                         l = lin(side)
-                        if any("symbol_address" in k for k in lin(other)[1]) and l[1] and not any("symbol_address" in k for k in l[1]):
+                        lo = lin(other)
+                        # by shape, not by the names of the locals: `<table entry> == <one symbol> + 1`
+                        if lo[0] == 0 and len(lo[1]) == 1 and list(lo[1].values()) == [1] and len(l[1]) == 1 and l[0] != 0 and set(l[1]) != set(lo[1]):
                             found = True
                             check("reverse lookup compares table line with index + 1", sp_file_line(tt.get("sp")), l, 1, [(lambda s: True, 1)])
     ctx.need(found, "comparison in the symbol-name lookup")
@@ -198,7 +206,7 @@ def run(ctx):
                               "shown by `assembly` would stop before its last operand" % short(f.name))
         for b, s in sets:
             l = lin(f.rvalue_expr(s["r"], 8))
-            ok = same(l, 0, [("offs(", 1), ("len(", 1)])
+            ok = same(l, 0, [(lambda k_: "offs(" in k_ or ".offs" in k_, 1), (lambda k_: "len(" in k_ or ".len" in k_, 1)])
             ctx.oblig(ok, {"tok_end": show(l)}, "offs + len of the consumed token")
             if not ok:
                 ctx.violation("tok_end-value|fn=%s" % short(f.name), sp_file_line(s.get("sp")),
